@@ -19,7 +19,7 @@ def run(ctx):
     ctx.audit("Slock.Properties.C10", THEOREMS)
     if ctx.tier == "thorough":
         ctx.leanchecker("Slock.Properties.C10")
-    engine2_common.run_engine2(ctx, ["C10:"], n_quick=400, n_thorough=6000)
+    engine2_common.run_engine2(ctx, ["C10:"])
     ctx.cov["rule"] = ("seeded operation sequences on the real LockDB (LOCK/UNLOCK with value frames, aof-timing flags, from-aof commands; ticks; role flips with "
                        "follower phases of up to 45 s bursts; snapshots incl. value/refCount/KeyCount; journal pulls), six profiles, adaptive drain + 18 s; "
                        "distinct_nontrivial = distinct sequences containing at least one grant")
